@@ -725,6 +725,21 @@ def sym_method(ctx, fr, obj, name, args, kw):
         raise Unsupported("_data.%s" % name)
     if isinstance(obj, o.SDict):
         return sdict_method(ctx, fr, obj, name, args, kw)
+    if isinstance(obj, (str, SAtom)) and ctx.__dict__.get("text_ropes") and name in ("join", "format"):
+        from vf.e1.vals import SText
+        if name == "join" and isinstance(args[0], (list, tuple)) and any(
+                isinstance(x, (SAtom, SText)) for x in args[0]) and isinstance(obj, str):
+            out = ""
+            for i, x in enumerate(args[0]):
+                out = SText.cat(SText.cat(out, obj if i else ""), x)
+            return out
+        if name == "format" and isinstance(obj, str) and obj.count("{}") == len(args) and "{" not in obj.replace("{}", "") \
+                and any(isinstance(a, (SAtom, SText, SInt)) for a in args):
+            pieces = obj.split("{}")
+            out = pieces[0]
+            for a, rest in zip(args, pieces[1:]):
+                out = SText.cat(SText.cat(out, o.to_str(ctx, fr, a)), rest)
+            return out
     if isinstance(obj, (str, SAtom)):
         if name == "join":
             sl = args[0]
